@@ -422,10 +422,20 @@ def _split_tuple_assignments(tree):
             out = []
             for st in blk:
                 if isinstance(st, ast.Assign) and len(st.targets) == 1 and isinstance(st.targets[0], ast.Tuple) and isinstance(st.value, ast.Tuple) \
-                        and len(st.targets[0].elts) == len(st.value.elts) and all(isinstance(t, ast.Name) for t in st.targets[0].elts) \
+                        and len(st.targets[0].elts) == len(st.value.elts) and all(isinstance(t, (ast.Name, ast.Subscript, ast.Attribute)) for t in st.targets[0].elts) \
                         and not any(isinstance(x, ast.Starred) for x in st.value.elts):
-                    names = {t.id for t in st.targets[0].elts}
-                    if not any(isinstance(x, ast.Name) and x.id in names for v in st.value.elts for x in ast.walk(v)):
+                    # names bound, and (for element / attribute stores) the texts of the containers written: none may be read on the right
+                    names = {t.id for t in st.targets[0].elts if isinstance(t, ast.Name)}
+                    written = set()
+                    for t in st.targets[0].elts:
+                        b_ = t
+                        while isinstance(b_, ast.Subscript):
+                            b_ = b_.value
+                        if not isinstance(t, ast.Name):
+                            written.add(ast.unparse(b_))
+                    pure_rhs = all(isinstance(v, (ast.Name, ast.Constant, ast.Attribute)) for v in st.value.elts) or not written
+                    if pure_rhs and not any(isinstance(x, ast.Name) and x.id in names for v in st.value.elts for x in ast.walk(v)) \
+                            and not any(ast.unparse(x) in written for v in st.value.elts for x in ast.walk(v) if isinstance(x, (ast.Attribute, ast.Name))):
                         for t, v in zip(st.targets[0].elts, st.value.elts):
                             out.append(ast.copy_location(ast.Assign(targets=[t], value=v, lineno=st.lineno), st))
                         k += 1
@@ -917,6 +927,129 @@ def _unroll_literal_comprehensions(tree):
     return k
 
 
+def _more_statement_spellings(tree):
+    """Statement-level re-spellings:
+    * `L += [e]` with L a local bound to a list display in the same function  ->  `L.append(e)`
+    * `X[i] = X[i] + e`  ->  `X[i] += e`   (element stores only)
+    * `b = R[0]; for r in R[1:]: if r[K] < b[K]: b = r`  ->  `b = min(R, key=lambda z__: z__[K])`  (first minimum, as the loop keeps it)
+    * `X[slice(a, b, c)]`, also through a local bound once to the slice object  ->  `X[a:b:c]`
+    * `getattr(o, NAME)` / `getattr(o, NAME + "sfx")` with NAME a local bound once to `"a" if c else "b"`  ->  `o.a if c else o.b`"""
+    import copy
+    k = 0
+    for fn in [f for f in ast.walk(tree) if isinstance(f, ast.FunctionDef)]:
+        binds = {}
+        for st in ast.walk(fn):
+            tg = st.targets if isinstance(st, ast.Assign) else [st.target] if isinstance(st, (ast.AugAssign, ast.For, ast.AnnAssign)) else []
+            for t in tg:
+                for x in ast.walk(t):
+                    if isinstance(x, ast.Name) and isinstance(x.ctx, ast.Store):
+                        binds.setdefault(x.id, []).append(st)
+
+        def listy(e):
+            return isinstance(e, (ast.List, ast.ListComp)) or (isinstance(e, ast.IfExp) and listy(e.body) and listy(e.orelse)) or \
+                (isinstance(e, ast.Call) and isinstance(e.func, ast.Name) and e.func.id == "list")
+        once = {n: sts[0] for n, sts in binds.items() if len(sts) == 1 and isinstance(sts[0], ast.Assign) and len(sts[0].targets) == 1
+                and isinstance(sts[0].targets[0], ast.Name)}
+        list_locals = {n for n, sts in binds.items() if any(isinstance(s_, ast.Assign) and listy(s_.value) for s_ in sts)
+                       and all((isinstance(s_, ast.Assign) and listy(s_.value)) or isinstance(s_, ast.AugAssign) for s_ in sts)}
+        slice_locals = {n: st.value for n, st in once.items() if isinstance(st.value, ast.Call) and isinstance(st.value.func, ast.Name)
+                        and st.value.func.id == "slice" and 1 <= len(st.value.args) <= 3 and not st.value.keywords}
+        name_locals = {n: st.value for n, st in once.items() if isinstance(st.value, ast.IfExp) and all(
+            isinstance(a_, ast.Constant) and isinstance(a_.value, str) and a_.value.isidentifier() for a_ in (st.value.body, st.value.orelse))}
+
+        def as_slice(call):
+            a = list(call.args)
+            none = lambda e: None if (isinstance(e, ast.Constant) and e.value is None) else e
+            if len(a) == 1:
+                return ast.Slice(lower=None, upper=none(a[0]), step=None)
+            return ast.Slice(lower=none(a[0]), upper=none(a[1]), step=none(a[2]) if len(a) == 3 else None)
+
+        class T(ast.NodeTransformer):
+            def visit_Subscript(self, n):
+                nonlocal k
+                self.generic_visit(n)
+                sl = n.slice
+                if isinstance(sl, ast.Name) and sl.id in slice_locals and isinstance(n.ctx, ast.Load):
+                    sl = slice_locals[sl.id]
+                if isinstance(sl, ast.Call) and isinstance(sl.func, ast.Name) and sl.func.id == "slice" and 1 <= len(sl.args) <= 3 and not sl.keywords:
+                    n.slice = as_slice(copy.deepcopy(sl))
+                    k += 1
+                return n
+
+            def visit_Call(self, n):
+                nonlocal k
+                self.generic_visit(n)
+                if isinstance(n.func, ast.Name) and n.func.id == "getattr" and len(n.args) == 2 and not n.keywords:
+                    nm, sfx = n.args[1], ""
+                    if isinstance(nm, ast.BinOp) and isinstance(nm.op, ast.Add) and isinstance(nm.right, ast.Constant) and isinstance(nm.right.value, str):
+                        nm, sfx = nm.left, nm.right.value
+                    if isinstance(nm, ast.Name) and nm.id in name_locals and (nm.id + sfx).isidentifier() if True else False:
+                        ife = name_locals[nm.id]
+                        k += 1
+                        return ast.copy_location(ast.IfExp(
+                            test=copy.deepcopy(ife.test),
+                            body=ast.Attribute(value=copy.deepcopy(n.args[0]), attr=ife.body.value + sfx, ctx=ast.Load()),
+                            orelse=ast.Attribute(value=copy.deepcopy(n.args[0]), attr=ife.orelse.value + sfx, ctx=ast.Load())), n)
+                return n
+        T().visit(fn)
+        # a slice / name local whose every use was written out is dead: drop its definition
+        for nm_ in list(slice_locals) + list(name_locals):
+            if not any(isinstance(x, ast.Name) and x.id == nm_ and isinstance(x.ctx, ast.Load) for x in ast.walk(fn)):
+                for node in ast.walk(fn):
+                    for fld in ("body", "orelse"):
+                        blk = getattr(node, fld, None)
+                        if isinstance(blk, list) and once[nm_] in blk and len(blk) > 1:
+                            blk.remove(once[nm_])
+
+        for node in ast.walk(fn):
+            for fld in ("body", "orelse"):
+                blk = getattr(node, fld, None)
+                if not (isinstance(blk, list) and blk and isinstance(blk[0], ast.stmt)):
+                    continue
+                i = 0
+                while i < len(blk):
+                    st = blk[i]
+                    # L += [e]
+                    if isinstance(st, ast.AugAssign) and isinstance(st.op, ast.Add) and isinstance(st.target, ast.Name) and st.target.id in list_locals \
+                            and isinstance(st.value, ast.List) and len(st.value.elts) == 1 and not isinstance(st.value.elts[0], ast.Starred):
+                        blk[i] = ast.copy_location(ast.Expr(value=ast.Call(func=ast.Attribute(value=ast.Name(id=st.target.id, ctx=ast.Load()), attr="append",
+                                                                                                  ctx=ast.Load()), args=[st.value.elts[0]], keywords=[])), st)
+                        k += 1
+                    # X[i] = X[i] + e
+                    elif isinstance(st, ast.Assign) and len(st.targets) == 1 and isinstance(st.targets[0], ast.Subscript) and isinstance(st.value, ast.BinOp) \
+                            and isinstance(st.value.op, (ast.Add, ast.Sub, ast.Mult, ast.Div)):
+                        tt = ast.unparse(st.targets[0])
+                        if ast.unparse(st.value.left) == tt and tt not in ast.unparse(st.value.right):
+                            blk[i] = ast.copy_location(ast.AugAssign(target=st.targets[0], op=st.value.op, value=st.value.right), st)
+                            k += 1
+                        elif isinstance(st.value.op, (ast.Add, ast.Mult)) and ast.unparse(st.value.right) == tt and tt not in ast.unparse(st.value.left):
+                            blk[i] = ast.copy_location(ast.AugAssign(target=st.targets[0], op=st.value.op, value=st.value.left), st)
+                            k += 1
+                    # running minimum
+                    elif isinstance(st, ast.Assign) and len(st.targets) == 1 and isinstance(st.targets[0], ast.Name) and i + 1 < len(blk) \
+                            and isinstance(st.value, ast.Subscript) and isinstance(st.value.slice, ast.Constant) and st.value.slice.value == 0 \
+                            and isinstance(blk[i + 1], ast.For):
+                        lp, b, R_ = blk[i + 1], st.targets[0].id, st.value.value
+                        okl = isinstance(lp.target, ast.Name) and not lp.orelse and len(lp.body) == 1 and isinstance(lp.body[0], ast.If) \
+                            and not lp.body[0].orelse and len(lp.body[0].body) == 1 \
+                            and ast.unparse(lp.iter) in (f"{ast.unparse(R_)}[1:]", ast.unparse(R_))
+                        if okl:
+                            r, iff = lp.target.id, lp.body[0]
+                            asg, t_ = iff.body[0], iff.test
+                            if isinstance(asg, ast.Assign) and ast.unparse(asg) == f"{b} = {r}" and isinstance(t_, ast.Compare) and len(t_.ops) == 1 \
+                                    and isinstance(t_.ops[0], ast.Lt) and isinstance(t_.left, ast.Subscript) and isinstance(t_.comparators[0], ast.Subscript) \
+                                    and ast.unparse(t_.left.value) == r and ast.unparse(t_.comparators[0].value) == b \
+                                    and ast.unparse(t_.left.slice) == ast.unparse(t_.comparators[0].slice):
+                                key = ast.Lambda(args=ast.arguments(posonlyargs=[], args=[ast.arg(arg="z__")], kwonlyargs=[], kw_defaults=[], defaults=[]),
+                                                 body=ast.Subscript(value=ast.Name(id="z__", ctx=ast.Load()), slice=t_.left.slice, ctx=ast.Load()))
+                                blk[i] = ast.copy_location(ast.Assign(targets=[ast.Name(id=b, ctx=ast.Store())], value=ast.Call(
+                                    func=ast.Name(id="min", ctx=ast.Load()), args=[R_], keywords=[ast.keyword(arg="key", value=key)])), st)
+                                del blk[i + 1]
+                                k += 1
+                    i += 1
+    return k
+
+
 def respell(tree):
     np_names = {}
     for st in tree.body:
@@ -940,6 +1073,7 @@ def respell(tree):
     n += _sort_after_bind(tree)
     n += _merge_store_aug(tree)
     n += _unroll_literal_comprehensions(tree)
+    n += _more_statement_spellings(tree)
     n += _inline_predicates(tree)
     n += _index_loops(tree)
     n += _fill_loops(tree)
